@@ -709,7 +709,8 @@ void    mktemplate (int state[], int statenum, int comstate)
 		}
 
 	if (ctrl.usemecs)
-		mkeccl (transset, tsptr, tecfwd, tecbck, numecs, 0);
+		/* transset[] holds class 256 as 0 (see above); map it back */
+		mkeccl (transset, tsptr, tecfwd, tecbck, numecs, CSIZE);
 
 	mkprot (tnxt + tmpbase, -numtemps, comstate);
 
